@@ -266,7 +266,10 @@ probe_report = probes.run(chk, w, llgo, Obs, compare)
 
 # ---------------------------------------------------------------------------------------------- random programs
 
-results = core.pmap(do_program, list(range(NPROG)), workers=WORKERS)
+prog_ids = list(range(NPROG))
+if os.environ.get("VERIF_C01_ONLY_PROGS"):      # development: rerun selected program indices of this seed
+    prog_ids = [int(x) for x in os.environ["VERIF_C01_ONLY_PROGS"].split(",")]
+results = core.pmap(do_program, prog_ids, workers=WORKERS)
 
 invalid = 0
 refdis_units = 0
@@ -277,6 +280,7 @@ by_kind = {}
 term_kinds = {}
 npk_hist = {}
 nviol = 0
+unplanned = 0
 for res in results:
     p = res["p"]
     if res["status"] == "invalid":
@@ -295,6 +299,10 @@ for res in results:
     npk_hist[str(p["npk"])] = npk_hist.get(str(p["npk"]), 0) + 1
     tk = "%s/%s" % (p["term"], res["ref_term"][1])
     term_kinds[tk] = term_kinds.get(tk, 0) + 1
+    if p["term"] == "normal" and res["ref_term"][:2] != ("exit", 0):
+        unplanned += 1          # a unit ended the program under the reference toolchain: generator bug (coverage loss), not a verdict
+        if unplanned <= 3:
+            print("UNPLANNED-TERMINATION program %d: reference ended with %s" % (res["idx"], res["ref_term"]), flush=True)
     failed_units = set()
     for name, tags, bad in res["bad"]:
         for uid, desc in bad:
@@ -390,6 +398,10 @@ chk.cov["rule"] = ("seeded typed random programs (feature skeletons x typed fill
 chk.assumptions.append("advisory_o2: not executed (LLVM 14 optimisation pipelines crash on opaque pointers, BUILDING.md) - every deciding execution is -O0")
 chk.assumptions.append("amd64 only; go1.24.0 (and go1.26.0) are the executable reference for the language spec; generator rules keep programs free of "
                        "unspecified evaluation order, map order, addresses, goroutines")
+chk.cov["unplanned_termination"] = unplanned
+if unplanned > max(1, len(results) // 50):
+    core.broken("%d programs planned to end normally were ended by a unit under the reference toolchain (> 2%%): generator bug" % unplanned)
 if invalid > max(1, len(results) // 50):
     core.broken("generator produced %d programs rejected by go (> 2%%)" % invalid)
-chk.finish(floor_eval=(NPROG * NUNITS * 2 * 8) // 10 if not KINDS else 1, floor_distinct=min(60, NPROG * 3))
+dev = bool(KINDS or os.environ.get("VERIF_C01_ONLY_PROGS"))
+chk.finish(floor_eval=1 if dev else (NPROG * NUNITS * 2 * 8) // 10, floor_distinct=2 if dev else min(60, NPROG * 3))
